@@ -25,6 +25,8 @@ func main() {
 		cmdList(os.Args[2:])
 	case "check":
 		os.Exit(cmdCheck(os.Args[2:]))
+	case "selftest":
+		os.Exit(cmdSelftest(os.Args[2:]))
 	default:
 		usage()
 	}
